@@ -26,6 +26,10 @@ def catalogue(tier: str):
     # (name, sections, fcp, first-command subset)
     rows = [('chain2-f1', [('P1', shapes['chain2'])], 1, 'hold'),
             ('chain2-f2-hp', [('P1', shapes['chain2'])], 2, 'hp')]
+    # two commands: hold of an instance that is not in the pool yet, then
+    # `release --all` (release_hold_point), then stop + restart
+    rows += [('chain2-f2-hold-future+release-all',
+              [('P1', shapes['chain2'])], 2, 'future')]
     if tier == 'thorough':
         rows += [('chain2-f2', [('P1', shapes['chain2'])], 2, 'all'),
                  ('prev-f3', [('P1', shapes['prev'])], 3, 'all')]
@@ -47,7 +51,10 @@ def first_cmds(spec):
     insts = instances(spec)
     holds = [('hold', {'tasks': [i]}) for i in insts]
     hp = [('set_hold_point', {'point': '1'})]
-    return {'hold': holds, 'hp': hp, 'all': holds + hp}[spec['first']]
+    future = [('hold', {'tasks': [i]}) for i in insts
+              if not i.startswith('1/')]
+    return {'hold': holds, 'hp': hp, 'all': holds + hp,
+            'future': future}[spec['first']]
 
 
 def make_factory(spec, tier='quick', variant=0):
@@ -59,6 +66,8 @@ def make_factory(spec, tier='quick', variant=0):
     def ops(w):
         if w.op_count == 0:
             return first
+        if spec['first'] == 'future':
+            return [('release_hold_point', {})]
         out = [('release', {'tasks': [i]}) for i in insts]
         out += [('release_hold_point', {})]
         out += [('force_trigger_tasks', {'tasks': [i], 'flow': ['all']})
@@ -67,7 +76,8 @@ def make_factory(spec, tier='quick', variant=0):
 
     def factory():
         p = OpProfile(
-            spec, ops=ops, op_budget=2 if tier == 'thorough' else 1,
+            spec, ops=ops, op_budget=2 if (
+                tier == 'thorough' or spec['first'] == 'future') else 1,
             stops=('REQUEST_NOW_NOW',), max_restarts=1, stop_after_op=True,
             monitors=[Holds, PoolInvariants], jump=())
         return p
@@ -85,7 +95,7 @@ def run(ctx: Ctx) -> Result:
     specs = catalogue(ctx.tier)
     st = explore_all(
         ctx, factories(ctx.tier),
-        max_states=ctx.pick(4000, 40000), max_seconds=ctx.pick(110, 1500))
+        max_states=ctx.pick(4000, 40000), max_seconds=ctx.pick(240, 1500))
     return result_from(
         ctx, st, prop='C06',
         bounds={'workflows': [s['name'] for s in specs],
